@@ -22,11 +22,22 @@
    parentheses; IS NOT NULL printed IS NULL; reserved words unquoted; Ctrl-Z escaped as \Z; a leading quote written as two quotes) — all five repaired in
    /repo — and the three unrepaired behaviours of the current tree (a quoted identifier containing a dot, or beginning
    with a digit, is written raw; NUL is dropped from string literals).
-   NOT covered by a theorem (oracle only, see design/C06.md): function calls, CASE, tuples, sub-queries; the statement
-   printers; the layouts of AST.Format / gosqlx.Format / formatter.Format / the CLI formatter (tied to SQL() by
-   the token-agreement oracle). *)
+   STATEMENT level (Model/StmtPrint.v mirrors SelectStatement / SetOperation / InsertStatement / UpdateStatement /
+   DeleteStatement / WithClause .SQL() and their helpers): for every reference statement of Spec/RefStmt.v (SELECT with
+   DISTINCT [ON], select list with aliases, FROM list, joins of every kind with ON / USING, WHERE, GROUP BY with ROLLUP / CUBE,
+   HAVING, ORDER BY with direction and NULLS, LIMIT, OFFSET, FETCH; set operations; WITH [RECURSIVE] with column lists and
+   [NOT] MATERIALIZED; INSERT with VALUES | query, ON CONFLICT, RETURNING; UPDATE; DELETE) whose names are written without
+   quotes and whose numbers are canonical (stmt_p), the printer writes the rendering of the normalised statement
+   (C06_print_stmt_is_render) and the statement parser model reads it back to the same tree
+   (C06_print_parse_select_partial, C06_print_parse_stmt_partial; `_partial`: the reference statement grammar of C03 omits
+   derived tables, LATERAL, GROUPING SETS, FOR, sub-query expressions, window functions, ON DUPLICATE KEY, UPDATE ... FROM,
+   DELETE ... USING, MERGE, DDL).
+   NOT covered by a theorem (oracle only, see design/C06.md): sub-queries, the clauses listed above, DDL / MERGE printers;
+   the layouts of AST.Format / gosqlx.Format / formatter.Format / the CLI formatter (tied to SQL() by the
+   token-agreement oracle). *)
 From Coq Require Import List String Ascii Arith.
-From GV Require Import Spec.RefGrammar Model.Expr Model.ExprParse Proofs.ExprParseP Proofs.ExprParseExtP Model.ExprPrint Proofs.ExprPrintP.
+From GV Require Import Spec.RefGrammar Spec.RefStmt Model.Expr Model.ExprParse Model.StmtParse Proofs.ExprParseP Proofs.ExprParseExtP Proofs.StmtParseP
+  Model.ExprPrint Proofs.ExprPrintP Model.StmtPrint Proofs.StmtPrintP.
 Import ListNotations.
 
 Theorem C06_print_is_render :
@@ -143,3 +154,49 @@ Example C06_nonvacuous_rich :
                                   "ELSE"; "NOT"; "t"; "."; "c"; "IS"; "NOT"; "NULL"; "END"]%string
                 /\ parse_expr_top no_defects 0 (ts ++ eof_stop) = Val (ast_of ex_rich, eof_stop).
 Proof. split; [reflexivity|]. split; [reflexivity|]. eexists. split; [vm_compute; reflexivity|]. split; vm_compute; reflexivity. Qed.
+
+(* ------------------------------------------------------------------------------------------------ *)
+(* statement level *)
+Theorem C06_print_select_is_render :
+  forall s, select_ok s = true -> select_p s = true ->
+    print_select print_ok (ast_of_select s) = Some (render_select sr0 (norm_select s))
+    /\ ast_of_select (norm_select s) = ast_of_select s.
+Proof. intros s Hok Hp. split; [exact (print_select_is_render s Hok Hp)|exact (select_norm_ast None s)]. Qed.
+Print Assumptions C06_print_select_is_render.
+
+Theorem C06_print_parse_select_partial :
+  forall md sf fuel s stop d,
+    select_ok s = true -> select_p s = true -> query_follow stop ->
+    d + 2 + select_depth sr0 (norm_select s) <= md ->
+    exists ts, print_select print_ok (ast_of_select s) = Some ts
+               /\ (List.length (ts ++ stop) <= fuel ->
+                   parse_statement md sf (parse_expression md no_defects fuel) d (ts ++ stop) = Val (GSelectS (ast_of_select s), stop)).
+Proof. exact print_parse_select. Qed.
+Print Assumptions C06_print_parse_select_partial.
+
+Theorem C06_print_stmt_is_render :
+  forall s, stmt_ok s = true -> stmt_p s = true ->
+    print_stmt print_ok (ast_of_stmt s) = Some (render_stmt sr0 (norm_stmt s))
+    /\ ast_of_stmt (norm_stmt s) = ast_of_stmt s.
+Proof. intros s Hok Hp. split; [exact (print_stmt_is_render s Hok Hp)|exact (stmt_norm_ast s)]. Qed.
+Print Assumptions C06_print_stmt_is_render.
+
+Theorem C06_print_parse_stmt_partial :
+  forall md sf fuel s stop d,
+    stmt_ok s = true -> stmt_p s = true -> stmt_follow stop ->
+    d + stmt_depth sr0 (norm_stmt s) <= md ->
+    exists ts, print_stmt print_ok (ast_of_stmt s) = Some ts
+               /\ (List.length (ts ++ stop) <= fuel ->
+                   parse_statement md sf (parse_expression md no_defects fuel) d (ts ++ stop) = Val (ast_of_stmt s, stop)).
+Proof. exact print_parse_stmt. Qed.
+Print Assumptions C06_print_parse_stmt_partial.
+
+Example C06_stmt_nonvacuous :
+  select_ok ex_select = true /\ select_p ex_select = true
+  /\ stmt_ok ex_stmt_with = true /\ stmt_p ex_stmt_with = true /\ stmt_ok ex_stmt_insert = true /\ stmt_p ex_stmt_insert = true
+  /\ stmt_follow [Tk TyEOF ""%string]
+  /\ exists ts, print_stmt print_ok (ast_of_stmt ex_stmt_insert) = Some ts
+                /\ parse_statement_top tree_flags (ts ++ [Tk TyEOF ""%string]) = Val (ast_of_stmt ex_stmt_insert, [Tk TyEOF ""%string]).
+Proof.
+  repeat (split; [reflexivity|]). split; [apply stmt_follow_eof|exact ex_stmt_print_parse].
+Qed.
